@@ -264,7 +264,7 @@ impl StringPool {
             self.strings.iter_mut().enumerate()
         {
             if *refcount == 0 {
-                debug_assert_eq!(st, "");
+                // (In a damaged file, an unused entry can still have text.)
                 *st = string;
                 *refcount = 1;
                 return Some(StringRef((index + 1) as i32));
@@ -281,19 +281,18 @@ impl StringPool {
         Some(StringRef(self.strings.len() as i32))
     }
 
-    /// Decrements the refcount of a string in the pool.
+    /// Decrements the refcount of a string in the pool.  Does nothing if the
+    /// reference is dangling or the refcount is already zero, which can only
+    /// be the case for references read from a damaged file (for which `get()`
+    /// returns an empty string).
     pub fn decref(&mut self, string_ref: StringRef) {
         let index = string_ref.index();
         if index >= self.strings.len() {
-            panic!(
-                "decref: string_ref {} invalid, pool has only {} entries",
-                string_ref.number(),
-                self.strings.len()
-            );
+            return;
         }
         let (ref mut string, ref mut refcount) = self.strings[index];
         if *refcount < 1 {
-            panic!("decref: string refcount is already zero");
+            return;
         }
         self.is_modified = true;
         *refcount -= 1;
